@@ -23,7 +23,7 @@
    cache is compared with the from-scratch hashes of its own node vector on the generated histories.
    Statements only. *)
 From Coq Require Import String NArith List.
-From MlsV Require Import Res TreeMathGen TreeMathProofs Tree TreeProofs TreeWF Decap DecapProofs TreeWF5 NodeVecGen NodeVecGenProofs Kem Priv ParentHash HashCache HashCacheGen HashCacheProofs HashCacheGenProofs HashCacheTree CommitStep TreeState.
+From MlsV Require Import Res TreeMathGen TreeMathProofs Tree TreeProofs TreeWF Decap DecapProofs TreeWF5 NodeVecGen NodeVecGenProofs Kem Priv ParentHash HashCache HashCacheGen HashCacheProofs HashCacheGenProofs HashCacheTree CommitStep TreeState ParentHashCode ParentHashGen ParentHashCodeProofs ParentHashGenProofs.
 Import ListNotations.
 Local Open Scope N_scope.
 
@@ -177,6 +177,36 @@ Theorem C08_parent_hashes_computed_by_the_committer_are_valid : forall PHF t rem
   PHValid PHF t d -> PHValid PHF t2 (decorate PHF t2 dm sndr flt fk leafkey).
 Proof. exact ph_commit_computed. Qed.
 Print Assumptions C08_parent_hashes_computed_by_the_committer_are_valid.
+
+(* ---- the code that computes the parent hashes of an update path (parent_hash.rs parent_hash_for_leaf /
+   update_parent_hashes, TRANSLATED on every run) computes exactly the decoration [decorate] for which validity is
+   proved above: the direct path is walked from the root down, a node whose copath child has an empty resolution
+   is skipped, every other node stores the hash so far and the next hash is ParentHash::new (PH) of its key, that
+   hash and the CACHED tree hash of its copath child - which is the hash term of the sibling's content, so PH
+   over the cache is the PHF of the validity theorems.  Hypotheses: the flags are the emptiness of the copath
+   resolutions in the new tree, unfiltered path nodes are parents carrying the new keys, the cache is right at
+   the copath nodes (C08_hash_cache_... above). *)
+Theorem C08_translated_parent_hash_walk_is_the_model : forall PH enc t c d index,
+  gen_parent_hash_for_leaf PH t c d index = parent_hash_for_leaf PH t c d index /\
+  gen_update_parent_hashes PH enc t c d index = update_parent_hashes PH enc t c d index.
+Proof. exact gen_parent_hash_code_is_model. Qed.
+Print Assumptions C08_translated_parent_hash_walk_is_the_model.
+
+Theorem C08_the_parent_hash_walk_of_the_code_computes_the_valid_parent_hashes :
+  forall PH enc t2 c (d dm0 : deco) sndr flt fk leafkey,
+  (forall i b, nth_error flt i = Some b -> resolution_empty t2 (node (N.of_nat i) (sib (sndr / 2 ^ N.of_nat i))) = Ok b) ->
+  (forall i, nth_error flt i = Some false -> exists um, get t2 (lvl_node (N.of_nat (S i)) sndr) = Some (Par um)) ->
+  (forall i, nth_error flt i = Some false -> fst (dm0 (lvl_node (N.of_nat (S i)) sndr)) = fk (N.of_nat i)) ->
+  (forall i, nth_error flt i = Some false ->
+     hidx c (node (N.of_nat i) (sib (sndr / 2 ^ N.of_nat i))) =
+     Ok (thash (fun n => enc (d n)) t2 [] i (sib (sndr / 2 ^ N.of_nat i)))) ->
+  (length flt <= 30)%nat -> sndr < 2 ^ N.of_nat (length flt) -> total_leaf_count t2 = 2 ^ N.of_nat (length flt) ->
+  (forall x, x <> 2 * sndr -> (forall i, nth_error flt i = Some false -> x <> lvl_node (N.of_nat (S i)) sndr) -> dm0 x = d x) ->
+  fst (dm0 (2 * sndr)) = leafkey ->
+  exists d' h, parent_hash_for_leaf PH t2 c dm0 sndr = Ok (d', h) /\
+    forall x, set_ph d' (2 * sndr) h x = decorate (fun k p ct => PH k p (c2h enc ct)) t2 d sndr flt fk leafkey x.
+Proof. exact parent_hash_for_leaf_is_decorate. Qed.
+Print Assumptions C08_the_parent_hash_walk_of_the_code_computes_the_valid_parent_hashes.
 
 (* ---- the whole public tree state of a member: node vector, keys and parent hashes, hash cache ----
    In EVERY state reachable from a new group by commits with and without a path, in the order of the code
